@@ -76,7 +76,7 @@ def model_checks(ctx, thorough):
     ctx.note("mech_observed", "meets the property" if r.ok else "refuted: %s (an open defect is transcribed)" % r.violated)
     # ... the mechanism as first read, and each single reverted fix, do not: TLC must keep refuting them
     refuted = {}
-    for mech, inv in (("prefix", "AccessOK"), ("rev_8ad0ac60", "AccessOK"), ("rev_7638a0fd", "NoWrongValueStored"), ("carry_neighbour", "NoWrongValueStored")):
+    for mech, inv in (("prefix", "AccessOK"), ("rev_8ad0ac60", "AccessOK"), ("rev_7638a0fd", "NoWrongValueStored"), ("rev_793eb5ab", "NoWrongValueStored"), ("carry_neighbour", "NoWrongValueStored")):
         r = ctx.tlc("SliceLazy", lazy_cfg(mech, 1, 1, False, ["TypeOK", inv]), what="SliceLazy(%s): counterexample to %s required" % (mech, inv))
         if r.violated != inv:
             raise Machinery("SliceLazy(%s) is not refuted (%s expected to fail): %r" % (mech, inv, r))
